@@ -36,7 +36,7 @@ def make_manager_class():
         async def handle_event(self, event, **kw):
             mw = self.mw
             t = asyncio.current_task()
-            rec = dict(self._sample(), t=mw.w.now, seq=mw.next_seq(), event=event.name, task=t.get_name() if t else None, kw=sorted(kw))
+            rec = dict(self._sample(), t=mw.w.now, seq=mw.next_seq(), event=event.name, task=t.get_name() if t else None, task_id=mw.task_serial(t), kw=sorted(kw))
             if event.name == "CONNECTION_FINISHED":
                 rec["kw_facade_is_none"] = kw.get("facade") is None
             mw.events.append(rec)
@@ -62,9 +62,12 @@ def make_manager_class():
             rec["conn_endpoints_before"] = [tr for tr in mw.w.loop.transports if not tr.closed and not tr.kw.get("allow_broadcast")]
             # ... and the connection's tasks alive at that moment, with the instant each one ends
             rec["conn_tasks_before"] = []
+            # (by name prefix, and - whatever their name - every task the manager's own task farm holds
+            # that is neither the manager's nor a discovery helper: commands the client started)
+            farm = {id(x) for x in getattr(self, "_tasks", []) if not x.get_name().startswith(("SPAMAN:", "LOC:", "ASYNC:"))}
             for tk in asyncio.all_tasks():
-                if tk.get_name().startswith(("SPA:", "FACADE:")) and not tk.done():
-                    ent = {"name": tk.get_name(), "done_at": None}
+                if (tk.get_name().startswith(("SPA:", "FACADE:")) or id(tk) in farm) and not tk.done():
+                    ent = {"name": tk.get_name(), "done_at": None, "id": mw.task_serial(tk)}
                     rec["conn_tasks_before"].append(ent)
                     tk.add_done_callback(lambda _t, ent=ent: ent.__setitem__("done_at", mw.w.now))
             mw.api.append(rec)
@@ -156,6 +159,19 @@ class ManWorld:
         self.raise_events, self.raises_left = None, 0  # client handler failures (event names, budget)
         self.on_event = None  # harness callback(man, event_name) at delivery, before any suspension
         self._seq = 0
+        import weakref
+
+        self._tser, self._tser_n = weakref.WeakKeyDictionary(), 0
+
+    def task_serial(self, t):
+        """A number that identifies a task object for the whole scenario (id() values are reused)."""
+        if t is None:
+            return None
+        n = self._tser.get(t)
+        if n is None:
+            self._tser_n += 1
+            n = self._tser[t] = self._tser_n
+        return n
 
     def next_seq(self):
         self._seq += 1
